@@ -15,13 +15,15 @@ Open Scope N_scope.
    (Partial = does not parse) and whether `PulseStorage(backend)[i]` returned an object *)
 Record observation := { o_missing : bool; o_entries : list (id * doc * bool) }.
 (* a run in which the k-th primitive raised: number of mutating primitives completed before + what was seen *)
-Record crash_obs := { writes_before : N; seen : observation }.
+(* seen_post: what was seen after a follow-up operation (no failure) executed on the same PulseStorage afterwards *)
+Record crash_obs := { writes_before : N; seen : observation; seen_post : observation }.
 
 Inductive outcome := OutOk | OutErr (e : err).
 
 Inductive case :=
 | CStore (b : backend) (history : list op) (final : op)
          (before : observation) (nofault : outcome) (after : observation) (crashes : list crash_obs)
+         (post : option op) (after_post : observation)
 | CCrash.
 
 Definition store_of (o : observation) : store := map (fun e => (fst (fst e), snd (fst e))) (o_entries o).
@@ -60,7 +62,7 @@ Definition err_eqb (a b : err) : bool :=
 Definition check_corr (c : case) : bool :=
   match c with
   | CCrash => false
-  | CStore b hist fin before nofault after crashes =>
+  | CStore b hist fin before nofault after crashes post after_post =>
       let '(d0, c0) := run_ops current b empty_disk [] hist in
       let pl := plan_of current b d0 c0 fin in
       vis_eqb (vis_of_disk d0) (vis_of_obs before)
@@ -73,6 +75,20 @@ Definition check_corr (c : case) : bool :=
            (dedup_adj (map vis_of_disk (prefix_states (steps_of pl) d0)))
            (dedup_adj (vis_of_obs before :: map (fun x => vis_of_obs (seen x)) crashes ++ [vis_of_obs after]))
       && forallb loader_agrees (before :: after :: map seen crashes)
+      && (match post with
+          | None => true
+          | Some po =>
+              (* the follow-up operation: on the cache as it was for a failed operation, on the updated cache
+                 for the completed one *)
+              let c1 := match pl with PSteps _ c' | PNoop c' => c' | PErr _ => c0 end in
+              vis_eqb (vis_of_disk (fst (run_ops current b (run (steps_of pl) d0) c1 [po]))) (vis_of_obs after_post)
+              && forallb (fun x =>
+                   existsb (fun dk => vis_eqb (vis_of_disk dk) (vis_of_obs (seen x))
+                                      && vis_eqb (vis_of_disk (fst (run_ops current b dk c0 [po])))
+                                                 (vis_of_obs (seen_post x)))
+                           (prefix_states (steps_of pl) d0)) crashes
+              && forallb loader_agrees (after_post :: map seen_post crashes)
+          end)
   end.
 
 (* ---- the property on the observations ---- *)
@@ -106,13 +122,16 @@ Definition in_scope (fin : op) (before : observation) : bool :=
 Definition check_spec (c : case) : bool :=
   match c with
   | CCrash => false
-  | CStore b hist fin before nofault after crashes =>
+  | CStore b hist fin before nofault after crashes post after_post =>
       if in_scope fin before then
         let ok (o : observation) := all_load o && old_or_new fin before o in
         ok after
         && forallb (fun x => ok (seen x)
-                             && (negb (writes_before x =? 0) || vis_eqb (vis_of_obs (seen x)) (vis_of_obs before)))
+                             && (negb (writes_before x =? 0) || vis_eqb (vis_of_obs (seen x)) (vis_of_obs before))
+                             (* a later operation on the same PulseStorage keeps the storage loadable *)
+                             && (match post with Some _ => all_load (seen_post x) | None => true end))
                    crashes
+        && (match post with Some _ => negb (all_load after) || all_load after_post | None => true end)
         && (match nofault with
             | OutErr _ => vis_eqb (vis_of_obs after) (vis_of_obs before)
             | OutOk => true
